@@ -487,22 +487,23 @@ Lemma recv_loop_rto fuel s acc s' :
 Proof. intro H. destruct (recv_loop_frame cci _ _ _ _ H) as (A & _). exact A. Qed.
 
 (* the counter leaves process_all_incoming_messages unchanged, or is reset to zero, which happens
-   only when the messages of this poll acknowledged (cumulatively or selectively) something new *)
+   only when the messages of this poll acknowledged (cumulatively or selectively) something new.
+   Since the repair of D17 the bookkeeping also runs when the receive loop ended on the closed
+   channel (`early` = true), so the reset is no longer confined to early = false. *)
 Theorem rto_mode_exit_ack s s' :
   step_st (process_all_incoming_messages cci s) = Some s' ->
   v_rto_retransmissions s' = v_rto_retransmissions s \/
   (v_rto_retransmissions s' = 0 /\
-   exists s1 r, recv_loop cci (v_inbox s ++ [ {| m_hdr := outgoing_header s; m_payload := [] |} ]) s
-                          on_ack_result_default = SOk s1 (r, false) /\
-                (0 < ar_acked_segments r \/ 0 < ar_newly_sacked_segments r)).
+   exists s1 r early,
+     recv_loop cci (v_inbox s ++ [ {| m_hdr := outgoing_header s; m_payload := [] |} ]) s
+               on_ack_result_default = SOk s1 (r, early) /\
+     (0 < ar_acked_segments r \/ 0 < ar_newly_sacked_segments r)).
 Proof.
   unfold process_all_incoming_messages.
   destruct (recv_loop cci _ s on_ack_result_default) as [s1 [r early]|s1 e|] eqn:El; cbn [sbind]; [| |discriminate].
   2:{ cbn [step_st]. intro H; injection H as <-. left. apply (recv_loop_rto _ _ _ _ ltac:(rewrite El; reflexivity)). }
   assert (H1 : v_rto_retransmissions s1 = v_rto_retransmissions s)
     by (apply (recv_loop_rto _ _ _ _ ltac:(rewrite El; reflexivity))).
-  destruct early.
-  { cbn [step_st]. intro H; injection H as <-. left; exact H1. }
   set (s2 := if (0 <? ar_acked_segments r) || (0 <? ar_newly_sacked_segments r) then _ else s1).
   assert (H2 : (v_rto_retransmissions s2 = v_rto_retransmissions s) \/
                (v_rto_retransmissions s2 = 0 /\ (0 < ar_acked_segments r \/ 0 < ar_newly_sacked_segments r))).
@@ -531,7 +532,7 @@ Proof.
   assert (Hgoal : forall x : vsock, v_rto_retransmissions x = v_rto_retransmissions s2 ->
             v_rto_retransmissions x = v_rto_retransmissions s \/
             (v_rto_retransmissions x = 0 /\
-             exists s1' r', SOk s1 (r, false) = SOk s1' (r', false) /\
+             exists s1' r' early', SOk s1 (r, early) = SOk s1' (r', early') /\
                (0 < ar_acked_segments r' \/ 0 < ar_newly_sacked_segments r'))).
   { intros x Hx. destruct H2 as [H2|[H2 H2']]; [left; congruence|right]. split; [congruence|]. eauto. }
   destruct (0 <? ar_acked_segments r).
